@@ -669,7 +669,13 @@ class IncrementalExecutor(Executor[DeliveryGroupMap]):
 
                 index += 1
 
+        closed = False
+
         def on_abort(_reason: BaseException | None) -> AwaitableOrValue[None]:
+            nonlocal closed
+            if closed:
+                return None  # the source must be closed only once
+            closed = True
             if is_async:
                 aclose = getattr(iterator, "aclose", None)
                 if aclose is not None:
